@@ -7,6 +7,7 @@ then quantify over the finite set of paths: "target reached iff expected(facts)"
 precedes B", "the argument of call C has provenance T", ...
 """
 import ast
+import re
 import builtins
 import copy
 
@@ -113,8 +114,9 @@ def clone_ast(n):
     for a in ('lineno', 'col_offset', 'end_lineno', 'end_col_offset'):
         if hasattr(n, a):
             setattr(m, a, getattr(n, a))
-    if hasattr(n, '_origin'):
-        m._origin = n._origin
+    for a in ('_origin', '_elts', '_comp'):
+        if hasattr(n, a):
+            setattr(m, a, getattr(n, a))
     return m
 
 
@@ -207,6 +209,37 @@ def is_new_module_var(module, name):
         return False
     mv = _CANON.get('module_vars', {})
     return module.name in mv and name not in mv[module.name]
+
+
+def _literal_elts(itsym, depth=0):
+    """The elements an iteration over `itsym` yields, when they are all known: a tuple / list display, the value of a filtered
+    comprehension on this path, a local bound to one of those, and enumerate / reversed / list / tuple of such."""
+    if depth > 4:
+        return None
+    if isinstance(itsym, (ast.Tuple, ast.List)):
+        if 0 < len(itsym.elts) <= 8 and not any(isinstance(x, ast.Starred) for x in itsym.elts):
+            return list(itsym.elts)
+        return None
+    if hasattr(itsym, '_elts'):
+        return list(itsym._elts)
+    if isinstance(itsym, ast.Name) and getattr(itsym, '_origin', None) is not None:
+        return _literal_elts(itsym._origin, depth + 1)
+    if isinstance(itsym, ast.Call) and isinstance(itsym.func, ast.Name) and not itsym.keywords:
+        if itsym.func.id == 'enumerate' and 1 <= len(itsym.args) <= 2:
+            inner = _literal_elts(itsym.args[0], depth + 1)
+            start = 0
+            if len(itsym.args) == 2:
+                if not (isinstance(itsym.args[1], ast.Constant) and isinstance(itsym.args[1].value, int)):
+                    return None
+                start = itsym.args[1].value
+            if inner is not None:
+                return [ast.Tuple(elts=[ast.Constant(value=start + i), x], ctx=ast.Load()) for i, x in enumerate(inner)]
+        if itsym.func.id in ('list', 'tuple') and len(itsym.args) == 1:
+            return _literal_elts(itsym.args[0], depth + 1)
+        if itsym.func.id == 'reversed' and len(itsym.args) == 1:
+            inner = _literal_elts(itsym.args[0], depth + 1)
+            return list(reversed(inner)) if inner is not None else None
+    return None
 
 
 def _is_mutable_display(sym):
@@ -330,13 +363,24 @@ class PathSim:
                     out.append((s, sig))
                     continue
                 rs = [(s, None)]
-                for t in stmt.targets:
+                targets = list(stmt.targets)
+                names = [t for t in targets if isinstance(t, ast.Name)]
+                reordered = len(targets) > 1 and bool(names) and _is_mutable_display(sym)
+                if reordered:
+                    # `a = self.x[k] = []`: one fresh container bound to a local and stored into the heap - bind the local first,
+                    # then store it by name so that the local becomes an alias of the heap path
+                    targets = names + [t for t in targets if not isinstance(t, ast.Name)]
+                for i_, t in enumerate(targets):
                     nrs = []
                     for s2, sg in rs:
                         if sg is not None:
                             nrs.append((s2, sg))
                         else:
-                            nrs.extend(self.assign(t, sym, s2, frame, stmt))
+                            v_ = sym
+                            if reordered and not isinstance(t, ast.Name):
+                                v_ = ast.Name(id=names[0].id, ctx=ast.Load())
+                                v_._origin = sym
+                            nrs.extend(self.assign(t, v_, s2, frame, stmt))
                     rs = nrs
                 out.extend(rs)
             return out
@@ -629,20 +673,28 @@ class PathSim:
                 continue
             base_loops = s0.loops
             pending = [(s0, 0)]
+            # a loop over a literal tuple / list display runs exactly once per written element, with that element
+            literal = _literal_elts(itsym)
             while pending:
                 s, k = pending.pop()
-                # exit after k iterations
-                s_exit = s.fork()
-                s_exit.loops = base_loops
-                s_exit.events.append(Event('loop-exit', stmt, f, text='for-exit', extra=k, ep=s_exit.ep,
-                                           loops=base_loops))
-                out.extend(self.exec_block(stmt.orelse, s_exit, frame))
-                if k >= self.unroll:
+                if literal is None or k == len(literal):
+                    # exit after k iterations
+                    s_exit = s.fork() if literal is None else s
+                    s_exit.loops = base_loops
+                    s_exit.events.append(Event('loop-exit', stmt, f, text='for-exit', extra=k, ep=s_exit.ep,
+                                               loops=base_loops))
+                    out.extend(self.exec_block(stmt.orelse, s_exit, frame))
+                    if literal is not None:
+                        continue
+                if literal is None and k >= self.unroll:
                     continue
                 s.loops = base_loops + ((id(stmt), k),)
-                elem = ast.Name(id='<elem%d of %s>' % (k, norm(itsym)), ctx=ast.Load())
-                elem._iter = itsym
-                elem._k = k
+                if literal is not None:
+                    elem = literal[k]
+                else:
+                    elem = ast.Name(id='<elem%d of %s>' % (k, norm(itsym)), ctx=ast.Load())
+                    elem._iter = itsym
+                    elem._k = k
                 s.events.append(Event('loop-iter', stmt, f, text='for-iter', extra=k, value=itsym, ep=s.ep,
                                       loops=s.loops))
                 for s1, sg in self.assign(stmt.target, elem, s, frame, stmt, quiet=True):
@@ -875,6 +927,38 @@ class PathSim:
                 else:
                     out.extend(self.ev(e.orelse, s, frame))
             return out
+        if isinstance(e, ast.BoolOp) and len(e.values) == 2 \
+                and (any(isinstance(x, ast.Call) for x in ast.walk(e.values[1])) or isinstance(e.values[0], (ast.ListComp, ast.Call))) \
+                and not any(isinstance(x, (ast.Compare, ast.BoolOp)) or (isinstance(x, ast.UnaryOp) and isinstance(x.op, ast.Not)) for x in e.values) \
+                and not self._is_boolish(f, e.values[0]):
+            # `a = X or Y()` / `X and Y()` used as a VALUE whose second operand is a computation: fork like the if-statement it abbreviates;
+            # `[.. for .. if ..] or [default]`: the comprehension is true exactly when one of its iterations appended
+            second_is_call = any(isinstance(x, ast.Call) for x in ast.walk(e.values[1]))
+            out = []
+            n0 = len(st.events)
+            for sym, s, sig in self.ev(e.values[0], st, frame):
+                if sig is not None:
+                    out.append((None, s, sig))
+                    continue
+                if isinstance(sym, ast.Constant):
+                    decided = [(bool(sym.value), s, None)]
+                elif isinstance(sym, ast.ListComp) and sym.generators[0].ifs and any(ev_.kind == 'loop-exit' for ev_ in s.events[n0:]):
+                    napp = len(sym._elts) if hasattr(sym, '_elts') else sum(1 for ev_ in s.events[n0:] if ev_.kind == 'call' and ev_.ftext == '<listcomp>.append' and ev_.recv is sym)
+                    decided = [(napp > 0, s, None)]
+                elif second_is_call:
+                    decided = self._decide(sym, e.values[0], s, frame)
+                else:
+                    for sym1, s1, sig1 in self.ev(e.values[1], s, frame):
+                        out.append((None, s1, sig1) if sig1 is not None else (ast.BoolOp(op=e.op, values=[sym, sym1]), s1, None))
+                    continue
+                for v, s2, sig2 in decided:
+                    if sig2 is not None:
+                        out.append((None, s2, sig2))
+                    elif v == isinstance(e.op, ast.Or):
+                        out.append((sym, s2, None))        # `X or ..` with X true / `X and ..` with X false: the value is X
+                    else:
+                        out.extend(self.ev(e.values[1], s2, frame))
+            return out
         if isinstance(e, ast.Call):
             return self.ev_call(e, st, frame)
         if isinstance(e, ast.ListComp) and len(e.generators) == 1 and e.generators[0].ifs and isinstance(e.generators[0].target, ast.Name) \
@@ -993,14 +1077,27 @@ class PathSim:
                 out.append((new, s, None))
         return out
 
+    def _is_boolish(self, f, e):
+        try:
+            ts = self.repo.expr_types(f, e)
+        except Exception:
+            return False
+        return any(t and t[0] == 'prim' and t[1] == 'bool' for t in ts)
+
     def _new_module_const(self, f, name):
         """Literal value of a module-level constant that did not exist on the pinned tree (hoisted literal)."""
         if name in f.params():
             return None
         r = self.repo.lookup(f.module, name)
-        if r and r[0] == 'var' and r[1] is not None and isinstance(r[1], ast.Constant) and is_new_module_var(r[3], name):
-            _canon_params(f)
-            return r[1]
+        if r and r[0] == 'var' and r[1] is not None and is_new_module_var(r[3], name):
+            v = r[1]
+            if isinstance(v, ast.Constant):
+                return v
+            if isinstance(v, ast.UnaryOp) and isinstance(v.op, (ast.USub, ast.UAdd)) and isinstance(v.operand, ast.Constant) \
+                    and isinstance(v.operand.value, (int, float)) and not isinstance(v.operand.value, bool):
+                return v            # a negative number: `-1` is written as a unary minus on a literal
+            if isinstance(v, (ast.Tuple,)) and all(isinstance(x, ast.Constant) for x in v.elts):
+                return v
         return None
 
     def _is_pure_call(self, e, site):
@@ -1072,7 +1169,11 @@ class PathSim:
                 sym = ast.Call(func=fsym, args=acc,
                                keywords=[ast.keyword(arg=(None if k == '**' else k), value=v) for k, v in kw.items()])
                 pure = self._is_pure_call(e, site)
-                if not pure:
+                g0 = next(iter(targets)) if len(targets) == 1 else None
+                will_inline = g0 is not None and (g0 in self.inline or (self.auto_inline and is_new_function(g0) and not any(isinstance(x, (ast.Yield, ast.YieldFrom)) for x in ast.walk(g0.node)))) \
+                    and frame[2] < self.inline_depth and not g0.is_module_body
+                if not pure and not will_inline:
+                    # an opaque call may change any heap location; an inlined call's effects are those of its body
                     s2.ep += 1
                     s2.heap.clear()
                 sym._ep = s2.ep
@@ -1080,6 +1181,17 @@ class PathSim:
                 evn = Event('call', e, f, text=norm(sym), ftext=norm(fsym), args=acc, kwargs=kw, recv=recv,
                             targets=targets, ep=s2.ep, loops=s2.loops, site=site)
                 s2.events.append(evn)
+                # a local that holds a fresh list display grows with what is appended to it (parts = [a]; parts.append(b) -> [a, b])
+                if isinstance(recv, ast.Name) and isinstance(fn, ast.Attribute) and fn.attr in ('append', 'extend') and len(acc) == 1 and not kw:
+                    cur_ = s2.env.get((frame[1], recv.id))
+                    if isinstance(cur_, ast.List):
+                        grown = None
+                        if fn.attr == 'append':
+                            grown = ast.List(elts=list(cur_.elts) + [acc[0]], ctx=ast.Load())
+                        elif isinstance(acc[0], (ast.List, ast.Tuple)):
+                            grown = ast.List(elts=list(cur_.elts) + list(acc[0].elts), ctx=ast.Load())
+                        if grown is not None and len(grown.elts) <= 24:
+                            s2.env[(frame[1], recv.id)] = grown
                 # exceptions the rule wants modelled
                 if self.may_raise is not None:
                     for et in (self.may_raise(evn) or ()):
@@ -1243,6 +1355,7 @@ class PathSim:
             base_loops = s0.loops
             saved = s0.env.get(key)
             sym = self.subst(e, s0, frame)
+            n_ev0 = len(s0.events)
             pending = [(s0, 0)]
             while pending:
                 s, k = pending.pop()
@@ -1253,7 +1366,11 @@ class PathSim:
                 else:
                     s_exit.env[key] = saved
                 s_exit.events.append(Event('loop-exit', loop, f, text='for-exit', extra=k, ep=s_exit.ep, loops=base_loops))
-                out.append((sym, s_exit, None))
+                # on this path the comprehension's value is known element by element: what its iterations appended
+                res = clone_ast(sym)
+                res._elts = [ev_.args[0] for ev_ in s_exit.events[n_ev0:] if ev_.kind == 'call' and ev_.ftext == '<listcomp>.append' and ev_.recv is sym]
+                res._comp = sym
+                out.append((res, s_exit, None))
                 if k >= self.unroll:
                     continue
                 s.loops = base_loops + ((id(loop), k),)
@@ -1569,6 +1686,9 @@ def eval_bool_sym(sym, facts):
             return facts[t] != neg
         if isinstance(op, ast.Is) and isinstance(r, ast.Constant) and r.value is None and norm(l) in facts and facts[norm(l)] is True:
             return neg          # truthy => not None
+        if isinstance(op, ast.Is) and isinstance(r, ast.Constant) and r.value is None and norm(l) in facts and facts[norm(l)] is False \
+                and isinstance(l, ast.Call) and isinstance(l.func, ast.Attribute) and l.func.attr in ('search', 'match', 'fullmatch'):
+            return not neg      # a regex match result is falsy only when it is None
         return None
     t = norm(sym)
     if t in facts:
@@ -1578,14 +1698,177 @@ def eval_bool_sym(sym, facts):
     return None
 
 
-def deep_norm(sym):
-    """Normalised text in which locals that hold a fresh container display are replaced by that display."""
-    import copy
-
+def deep_norm(sym, concat=False):
+    """Normalised text in which locals that hold a fresh container display are replaced by that display.
+    concat=True additionally rewrites every way of building a string from pieces - `''.join([a, b])`, `'{} {}'.format(a, b)`,
+    f-strings, `'%s %s' % (a, b)` - as the plain concatenation `a + ' ' + b` (see concat_form)."""
     class T(ast.NodeTransformer):
         def visit_Name(self, x):
             o = getattr(x, '_origin', None)
             return self.visit(clone_ast(o)) if o is not None else x
+
+        def visit_Call(self, x):
+            x = self.generic_visit(x)
+            if isinstance(x.func, ast.Name) and x.func.id == 'len' and len(x.args) == 1 and isinstance(x.args[0], (ast.List, ast.Tuple)) \
+                    and not any(isinstance(y, ast.Starred) for y in x.args[0].elts):
+                return ast.Constant(value=len(x.args[0].elts))      # the length of a list that is known element by element
+            return x
     if sym is None:
         return 'None'
-    return norm(T().visit(clone_ast(sym)))
+    t = T().visit(clone_ast(sym))
+    if concat:
+        t = concat_form(t)
+    return norm(t)
+
+
+_STR_CALLS = ('color', 'str', 'repr', 'no_color', 'number_to_letter_id', 'format')
+
+
+def _as_str_piece(v, conversion=-1, spec=None):
+    """the expression a maintainer would write for `{}`-formatting v inside a `+` chain"""
+    if conversion == 114:       # !r
+        return ast.Call(func=ast.Name(id='repr', ctx=ast.Load()), args=[v], keywords=[])
+    if spec:
+        return ast.Call(func=ast.Attribute(value=ast.Constant(value='{:%s}' % spec), attr='format', ctx=ast.Load()), args=[v], keywords=[])
+    if isinstance(v, ast.Constant) and isinstance(v.value, str):
+        return v
+    if isinstance(v, ast.JoinedStr):
+        return v
+    if isinstance(v, ast.Call):
+        fn = v.func
+        nm = fn.id if isinstance(fn, ast.Name) else (fn.attr if isinstance(fn, ast.Attribute) else '')
+        if nm in _STR_CALLS or nm in ('join', 'format', 'strip', 'lstrip', 'rstrip', 'replace', 'lower', 'upper', 'string', 'to_str', 'id_str', 'type_str', 'value_to_str', 'name', 'capitalize'):
+            return v
+    if isinstance(v, ast.BinOp) and isinstance(v.op, ast.Add):
+        return v
+    return ast.Call(func=ast.Name(id='str', ctx=ast.Load()), args=[v], keywords=[])
+
+
+def _format_pieces(tmpl, args, kwargs):
+    """pieces of tmpl.format(*args, **kwargs) or None when the template is beyond the simple forms"""
+    import string
+    out = []
+    auto = 0
+    try:
+        parsed = list(string.Formatter().parse(tmpl))
+    except ValueError:
+        return None
+    for lit, field, spec, conv in parsed:
+        if lit:
+            out.append(ast.Constant(value=lit))
+        if field is None:
+            continue
+        if spec and ('{' in spec):
+            return None
+        if field == '':
+            if auto >= len(args):
+                return None
+            v = args[auto]
+            auto += 1
+        elif field.isdigit():
+            if int(field) >= len(args):
+                return None
+            v = args[int(field)]
+        elif field.isidentifier() and field in kwargs:
+            v = kwargs[field]
+        else:
+            return None
+        out.append(_as_str_piece(v, 114 if conv == 'r' else -1, spec or None))
+        if conv not in (None, 'r', 's'):
+            return None
+    return out
+
+
+def concat_parts(e):
+    """Flatten a string-building expression into its pieces (AST nodes); a piece that is itself such an expression is flattened too."""
+    if isinstance(e, ast.BinOp) and isinstance(e.op, ast.Add):
+        return concat_parts(e.left) + concat_parts(e.right)
+    if isinstance(e, ast.JoinedStr):
+        out = []
+        for v in e.values:
+            if isinstance(v, ast.Constant):
+                out.append(v)
+            elif isinstance(v, ast.FormattedValue):
+                spec = None
+                if v.format_spec is not None:
+                    if len(v.format_spec.values) == 1 and isinstance(v.format_spec.values[0], ast.Constant):
+                        spec = v.format_spec.values[0].value
+                    else:
+                        return [e]
+                out.extend(concat_parts(_as_str_piece(v.value, v.conversion, spec)))
+        return out
+    if isinstance(e, ast.Call) and isinstance(e.func, ast.Attribute) and e.func.attr == 'join' and len(e.args) == 1 and not e.keywords \
+            and isinstance(e.func.value, ast.Constant) and e.func.value.value == '' and isinstance(e.args[0], (ast.List, ast.Tuple)) \
+            and not any(isinstance(x, ast.Starred) for x in e.args[0].elts):
+        out = []
+        for x in e.args[0].elts:
+            out.extend(concat_parts(x))
+        return out
+    if isinstance(e, ast.Call) and isinstance(e.func, ast.Attribute) and e.func.attr == 'format' and isinstance(e.func.value, ast.Constant) \
+            and isinstance(e.func.value.value, str) and not any(isinstance(a, ast.Starred) for a in e.args) and not any(k.arg is None for k in e.keywords):
+        ps = _format_pieces(e.func.value.value, e.args, {k.arg: k.value for k in e.keywords})
+        if ps is not None and not (len(ps) == 1 and isinstance(ps[0], ast.Call) and ps[0].func is e.func):
+            only_spec = len(e.args) == 1 and len(ps) == 1 and isinstance(ps[0], ast.Call) and isinstance(ps[0].func, ast.Attribute) and ps[0].func.attr == 'format'
+            if only_spec:
+                return [e]          # '{:7.4f}'.format(x) is already the canonical single piece
+            out = []
+            for x in ps:
+                out.extend(concat_parts(x))
+            return out
+    if isinstance(e, ast.BinOp) and isinstance(e.op, ast.Mod) and isinstance(e.left, ast.Constant) and isinstance(e.left.value, str):
+        vals = list(e.right.elts) if isinstance(e.right, ast.Tuple) else [e.right]
+        bits = re.split(r'(%[sr])', e.left.value)
+        if sum(1 for b in bits if b in ('%s', '%r')) == len(vals) and '%' not in ''.join(b for b in bits if b not in ('%s', '%r')):
+            out = []
+            it = iter(vals)
+            for b in bits:
+                if b in ('%s', '%r'):
+                    out.extend(concat_parts(_as_str_piece(next(it), 114 if b == '%r' else -1)))
+                elif b:
+                    out.append(ast.Constant(value=b))
+            return out
+    return [e]
+
+
+def concat_form(e):
+    """Rewrite (recursively) every string-building sub-expression of e as a left-nested `+` chain of its pieces; adjacent literal
+    pieces are merged and empty ones dropped."""
+    class T(ast.NodeTransformer):
+        def generic_visit(self, n):
+            n = super().generic_visit(n)
+            return n
+
+        def _chain(self, n):
+            ps = concat_parts(n)
+            if len(ps) == 1 and ps[0] is n:
+                return super().generic_visit(n)
+            ps = [self.visit(p) if p is not n else p for p in ps]
+            merged = []
+            for p in ps:
+                if isinstance(p, ast.Constant) and isinstance(p.value, str):
+                    if p.value == '':
+                        continue
+                    if merged and isinstance(merged[-1], ast.Constant) and isinstance(merged[-1].value, str):
+                        merged[-1] = ast.Constant(value=merged[-1].value + p.value)
+                        continue
+                merged.append(p)
+            if not merged:
+                return ast.Constant(value='')
+            out = merged[0]
+            for p in merged[1:]:
+                out = ast.BinOp(left=out, op=ast.Add(), right=p)
+            return out
+
+        def visit_BinOp(self, n):
+            if isinstance(n.op, (ast.Add, ast.Mod)):
+                return self._chain(n)
+            return super().generic_visit(n)
+
+        def visit_JoinedStr(self, n):
+            return self._chain(n)
+
+        def visit_Call(self, n):
+            if isinstance(n.func, ast.Attribute) and n.func.attr in ('join', 'format'):
+                return self._chain(n)
+            return super().generic_visit(n)
+    return T().visit(clone_ast(e))
